@@ -181,6 +181,21 @@ func decodeBody(rec *h.Rec) (string, string, error) {
 
 type c13Ent struct{ A string }
 
+// ptRec is a recorder whose Write is a scheduling point (a write to the connection may block, so
+// other requests can run in between) and that can be told to fail every write.
+type ptRec struct {
+	*h.Rec
+	fail bool
+}
+
+func (r *ptRec) Write(b []byte) (int, error) {
+	vsched.Pt("conn.write")
+	if r.fail {
+		return 0, fmt.Errorf("client went away")
+	}
+	return r.Rec.Write(b)
+}
+
 func payload(id string) (string, string) {
 	return "first-" + id + "-" + strings.Repeat(id, 8) + ";", "second-" + id + "-" + strings.Repeat("z"+id, 6)
 }
@@ -247,6 +262,10 @@ func c13Request(kind byte, id string) (h.Req, string, int) {
 		return h.Req{Method: "GET", Segs: []string{"s", "c", id}, Hdr: [][2]string{{"Accept-Encoding", "deflate"}}}, a + b, 200
 	case 'R':
 		return h.Req{Method: "POST", Segs: []string{"s", "e", id}, Hdr: [][2]string{{"Content-Type", "application/json"}, {"Content-Encoding", "gzip"}}}, "entity-" + id + "-" + strings.Repeat(id, 40), 200
+	case 'X': // gzip request body with a corrupt header: ReadEntity must return an error
+		return h.Req{Method: "POST", Segs: []string{"s", "e", id}, Hdr: [][2]string{{"Content-Type", "application/json"}, {"Content-Encoding", "gzip"}}}, "read error: ", 400
+	case 'F': // the underlying writer fails every write (client gone)
+		return h.Req{Method: "GET", Segs: []string{"s", "n", id}, Hdr: [][2]string{{"Accept-Encoding", "gzip"}}}, "", 200
 	}
 	panic("kind")
 }
@@ -269,17 +288,24 @@ func c13Scenario(provider, kinds string, serve bool, bound int) e3Scenario {
 			wants[i] = want
 			recs[i] = h.NewRec()
 			hr := q.HTTP()
+			if kinds[i] == 'X' {
+				body := []byte("this is not a gzip stream at all")
+				hr.Body = &chunkReader{data: body, chunk: 16, label: "body.read"}
+				hr.ContentLength = int64(len(body))
+				hr.Header.Set("Content-Length", fmt.Sprint(len(body)))
+			}
 			if kinds[i] == 'R' {
 				body := gzipBytes(`{"A":"` + want + `"}`)
 				hr.Body = &chunkReader{data: body, chunk: (len(body) + 2) / 3, label: "body.read"}
 				hr.ContentLength = int64(len(body))
 				hr.Header.Set("Content-Length", fmt.Sprint(len(body)))
 			}
+			w := &ptRec{Rec: recs[i], fail: kinds[i] == 'F'}
 			inst.Bodies = append(inst.Bodies, vsched.Body{Name: string(kinds[i]) + id, Run: func() {
 				if serve {
-					c.ServeHTTP(recs[i], hr)
+					c.ServeHTTP(w, hr)
 				} else {
-					c.Dispatch(recs[i], hr)
+					c.Dispatch(w, hr)
 				}
 			}})
 		}
@@ -293,9 +319,18 @@ func c13Scenario(provider, kinds string, serve bool, bound int) e3Scenario {
 				return out
 			}
 			for i := 0; i < n; i++ {
+				if kinds[i] == 'F' {
+					continue // nothing reaches the client; only the ledger verdict counts
+				}
 				got, enc, err := decodeBody(recs[i])
 				if err != nil {
 					out = append(out, e3Issue{"oracle:decode", fmt.Sprintf("response %d (%c, Content-Encoding %q) does not decode: %v", i+1, kinds[i], enc, err)})
+					continue
+				}
+				if kinds[i] == 'X' {
+					if !strings.HasPrefix(got, wants[i]) || recs[i].Code != 400 {
+						out = append(out, e3Issue{"oracle:broken-body", fmt.Sprintf("response %d: a corrupt gzip body gave status %d body %q, expected a read error", i+1, recs[i].Code, got)})
+					}
 					continue
 				}
 				if got != wants[i] {
@@ -324,7 +359,7 @@ func c13Scenario(provider, kinds string, serve bool, bound int) e3Scenario {
 func c13Scenarios(tier string) []e3Scenario {
 	var out []e3Scenario
 	providers := []string{"bounded0", "bounded1", "bounded2", "syncpool"}
-	pairs := []string{"NN", "DD", "NE", "NP", "NC", "RR", "NR", "PP", "CC"}
+	pairs := []string{"NN", "DD", "NE", "NP", "NC", "RR", "NR", "PP", "CC", "NF", "FF", "XR", "XX"}
 	bound := 2
 	if tier == "thorough" {
 		pairs = append(pairs, "ND", "EE", "DC", "RP", "NNN", "NNP", "RRR", "NDC", "NER", "DDD")
@@ -349,6 +384,6 @@ func c13Scenarios(tier string) []e3Scenario {
 func checkC13(run *h.Run) {
 	e3RunAll(run, nil)
 	run.Cov["distinct_nontrivial"] = run.Cov["schedules"]
-	run.Cov["rule"] = "E3: stateless exploration of all thread schedules (scheduling points = RWMutex Lock/RLock, Pool Get/Put, every channel operation, harness points inside handlers and body reads; Pool.Get hand-out is an owned choice) with iterative preemption bounding (quick: 2 concurrent requests, bound 2; thorough: up to 3 requests, bound 3) for every provider in {bounded(0), bounded(1), bounded(2), sync.Pool} x request-kind tuple over {N gzip response, D deflate response, E routing error through the encoder, P recovered panic after partial output, C handler closes the writer twice, R gzip request body read in chunks} x entry point. Every complete execution is non-trivial: ledger verdict, blocked-in-provider events, deadlock, decoded bodies. Each execution runs the real (instrumented) package."
+	run.Cov["rule"] = "E3: stateless exploration of all thread schedules (scheduling points = RWMutex Lock/RLock, Pool Get/Put, every channel operation, harness points inside handlers, body reads and every write to the connection; Pool.Get hand-out is an owned choice) with iterative preemption bounding (quick: 2 concurrent requests, bound 2; thorough: up to 3 requests, bound 3) for every provider in {bounded(0), bounded(1), bounded(2), sync.Pool} x request-kind tuple over {N gzip response, D deflate response, E routing error through the encoder, F underlying writer fails every write, X corrupt gzip request body, P recovered panic after partial output, C handler closes the writer twice, R gzip request body read in chunks} x entry point. Every complete execution is non-trivial: ledger verdict, blocked-in-provider events, deadlock, decoded bodies. Each execution runs the real (instrumented) package."
 	run.Assume = []string{"sequentially consistent interleavings at synchronisation granularity", "shim RWMutex/Pool faithful to sync (writer preference; pool may drop or return any pooled object)", "compress/* trusted"}
 }
